@@ -48,6 +48,9 @@ func (g *GTPv2) DecodeFromBytes(data []byte, df gopacket.DecodeFeedback) error {
 	// The TEID is only present with the T flag: a reused layer must not keep the
 	// TEID of an earlier packet.
 	g.TEID = 0
+	// IEs are appended below: start from an empty list, not from the IEs of an
+	// earlier packet decoded into the same layer.
+	g.IEs = g.IEs[:0]
 
 	// All offsets are ints: with 16-bit arithmetic a 65535-byte packet wraps the
 	// index around and the IE loop below never terminates.
